@@ -321,7 +321,37 @@ def r8_location_slot_is_padded_in_one_piece(cx):
           "one write whose data is sized by `size - string.len()` (subtractions at lines %s, padding writes %d)" % (subs, len(pad)))
 
 
+def r9_location_read_is_the_location_stored(cx):
+    """'the new location is what is read back': the `pack_location` of a PackInfo is set where the info is parsed, where
+    it is created, and by `set_location`; nothing on the reading side assigns it again (a normalisation there makes the
+    string read differ from the string stored, and the next rewrite compares against something that is not in the file)."""
+    F = cx.F
+    bad = []
+    n = 0
+    for f in F.live_fns:
+        if "blocks" not in f:
+            continue
+        own = F.effective_owner(f)["name"]
+        allowed = re.search(r"pack_info::PackInfo|tools::set_location$|^creator::", own) is not None
+        for blk in f["blocks"]:
+            if blk.get("cleanup"):
+                continue
+            for st in blk["s"]:
+                if st["k"] != "assign":
+                    continue
+                pr = [e for e in st["lhs"].get("p", []) if isinstance(e, dict) and e.get("n") == "pack_location"]
+                if pr:
+                    n += 1
+                    if not allowed:
+                        bad.append((f, st.get("ln")))
+    for f, ln in bad:
+        cx.ob("R9", "R9/%s/assigns-pack_location" % re.sub(r"<.*?>", "", f["name"]).split("::")[-1], False, f,
+              "pack_location is assigned outside PackInfo, the creators and set_location (line %s)" % ln, ln=ln)
+    cx.ob("R9", "R9/pack_location-writers", not bad and n >= 1, "(crate)", "%d assignments to a pack_location field, all in PackInfo / creators / set_location" % n)
+
+
 RULES = [
+    ("R9", r9_location_read_is_the_location_stored, 1),
     ("R8", r8_location_slot_is_padded_in_one_piece, 2),
     ("R7", r7_reader_accepts_what_the_writer_accepts, 4),
     ("R6", r6_container_readers_are_file_views, 3),
